@@ -234,7 +234,7 @@ def canon(op, args, r):
 def run(ctx):
     rng = ctx.rng
     bs = bases(ctx, rng)
-    n_mut = 12 if ctx.tier == "quick" else 120
+    n_mut = 60 if ctx.tier == "quick" else 600
     ops = []
     for o, a in bs:
         ops.append((o, dict(a, _leakcheck=True)))
